@@ -298,7 +298,13 @@ def gen_envelope():
     by_proto = {E.proto_name(c): E.lean_name(c, table) for c in list(table.values()) + [E.HarnessError, E.HarnessBaseError]}
     inj = []
     try:
-        matrix = E.injection_matrix()
+        hooked = E.hooked_points()
+    except Exception:
+        hooked = []
+    t += "/-- the primitives the harness can hook in this working tree (all of them unless an import style changed) -/\n"
+    t += f"def hookedPoints : List Point := [{', '.join('.' + p for p in hooked)}]\n"
+    try:
+        matrix = E.injection_matrix(points=hooked)
     except Exception as e:  # the live code cannot be instrumented at some point: empty table, injection_table_complete fails
         sys.stderr.write("parts_c06: injection matrix failed: %r\n" % (e,))
         matrix = []
